@@ -320,10 +320,13 @@ class OpenDocument:
         """
         self.__replaceGenerator()
         x = DocumentMeta()
-        x.addElement(self.meta)
         xml=StringIO()
         xml.write(_XMLPROLOGUE)
-        x.toXml(0,xml)
+        # write the wrapper around the section; adding the section to the
+        # wrapper would move it out of the document
+        x.write_open_tag(0, xml)
+        self.meta.toXml(1, xml)
+        x.write_close_tag(0, xml)
         result=xml.getvalue()
         assert(type(result)==type(u""))
         return result
@@ -334,13 +337,15 @@ class OpenDocument:
         @return a unicode string
         """
         x = DocumentSettings()
-        x.addElement(self.settings)
         xml=StringIO()
         if sys.version_info[0]==2:
             xml.write(_XMLPROLOGUE)
         else:
             xml.write(_XMLPROLOGUE)
-        x.toXml(0,xml)
+        # see metaxml: do not move the section out of the document
+        x.write_open_tag(0, xml)
+        self.settings.toXml(1, xml)
+        x.write_close_tag(0, xml)
         result=xml.getvalue()
         assert(type(result)==type(u""))
         return result
